@@ -1,5 +1,14 @@
 -- Root of the `HgVerif` library: models, lemmas and property theorems.
 import HgVerif.Driver.Proto
+import HgVerif.Model.Extracted
+import HgVerif.Model.Tie
 import HgVerif.Model.NodeSched
 import HgVerif.Lemmas.NodeSched
 import HgVerif.Props.C18
+import HgVerif.Model.Sched
+import HgVerif.Lemmas.Sched
+import HgVerif.Model.Engine
+import HgVerif.Props.C15
+import HgVerif.Model.Rank
+import HgVerif.Lemmas.Rank
+import HgVerif.Props.C01Rank
